@@ -306,7 +306,13 @@ impl PreferenceManager {
             self.api_prefs = Preferences{ prefs: DEFAULT_API_PREFERENCES.with(|defaults| defaults.prefs.clone()) };
         }
 
-        let should_update_system_prefs = self.sys_prefs_file.is_none() || !self.sys_prefs_file.as_ref().unwrap().is_up_to_date();
+        let mut system_prefs_file = self.rules_dir.to_path_buf();
+        system_prefs_file.push("prefs.yaml");
+        // the remembered file belongs to another directory if set_rules_dir() was called again with a different directory
+        let should_update_system_prefs = match self.sys_prefs_file.as_ref() {
+            None => true,
+            Some(file_and_time) => !file_and_time.is_for_file(&system_prefs_file) || !file_and_time.is_up_to_date(),
+        };
         let should_update_user_prefs = self.user_prefs_file.is_none() || !self.user_prefs_file.as_ref().unwrap().is_up_to_date();
         if !(should_update_system_prefs || should_update_user_prefs) {
             return Ok( () );            // no need to do anything else
@@ -314,8 +320,6 @@ impl PreferenceManager {
 
         let mut prefs = Preferences::default();
 
-        let mut system_prefs_file = self.rules_dir.to_path_buf();
-        system_prefs_file.push("prefs.yaml");
         if is_file_shim(&system_prefs_file) {
             let defaults = DEFAULT_USER_PREFERENCES.with(|defaults| defaults.clone());
             prefs = Preferences::read_prefs_file(&system_prefs_file, defaults)?;
